@@ -289,6 +289,8 @@ static void enum_cb(const struct pfx_record *rec, void *d)
  * never delayed. */
 static __thread uint32_t ALLOC_DELAY_RNG; /* 0 = this thread is not delayed */
 static uint64_t ALLOC_DELAYS;
+static uint32_t ALLOC_DELAY_MASK = 3; /* one allocation in four (lin mode); reload mode: one in 256, its readers hold
+					 * the lock while they wait and the reloading thread must get its turn */
 
 static void alloc_delay(void)
 {
@@ -302,7 +304,7 @@ static void alloc_delay(void)
 	x ^= x >> 17;
 	x ^= x << 5;
 	ALLOC_DELAY_RNG = x ? x : 1;
-	if (x & 3)
+	if (x & ALLOC_DELAY_MASK)
 		return;
 	ns = 2000 + (long)((x >> 8) % 38000);
 	clock_gettime(CLOCK_MONOTONIC, &t0);
@@ -314,13 +316,14 @@ static void alloc_delay(void)
 
 /* ... and one in 48 fails: a lookup that cannot allocate must come back with an error and leave the lock as it found it */
 static __thread unsigned long ALLOC_FAILS;
+static bool ALLOC_FAIL_ENABLED;
 static uint64_t ALLOC_FAILS_TOTAL;
 
 static bool alloc_fails_now(void)
 {
 	uint32_t x = ALLOC_DELAY_RNG;
 
-	if (!x)
+	if (!x || !ALLOC_FAIL_ENABLED)
 		return false;
 	x ^= x << 13;
 	x ^= x >> 17;
@@ -601,6 +604,8 @@ static void run_lin_case(struct rng *r, long c, int nops, int light)
 	int maxwin = 0;
 
 	HOT = c % 3 == 2;
+	ALLOC_FAIL_ENABLED = true;
+	ALLOC_DELAY_MASK = 3;
 	lin_universe(r);
 	lin_plan(r, nops);
 	pfx_table_init(&pt, NULL);
@@ -692,7 +697,7 @@ static volatile int RELOADING, STOP_READERS;
 static bset OTHER_P, OTHER_K;
 
 struct robs {
-	unsigned long n, inflight, stable, flips, saw_new, discarded;
+	unsigned long n, inflight, stable, flips, saw_new, discarded, with_reasons;
 };
 
 struct rreader {
@@ -755,8 +760,12 @@ static void *rreader_main(void *arg)
 {
 	struct rreader *rd = arg;
 	int last_new_epoch_p = -1, last_new_epoch_k = -1; /* epoch in which a new-only answer was seen */
+	struct pfx_record *reason = NULL;
+	unsigned int reason_n = 0;
 
 	unsigned long spins = 0;
+
+	ALLOC_DELAY_RNG = (uint32_t)rnd32(&rd->rng) | 1; /* delays only: allocations are made to fail in the lin mode alone */
 
 	while (!__atomic_load_n(&STOP_READERS, __ATOMIC_SEQ_CST)) {
 		int q = (int)rndn(&rd->rng, NQ);
@@ -831,7 +840,14 @@ static void *rreader_main(void *arg)
 				ip.ver = LRTR_IPV6;
 				memcpy(ip.u.addr6.addr, pq->a, 16);
 			}
-			pfx_table_validate(rd->pt, QP[q].asn, &ip, (uint8_t)QP[q].qlen, &st);
+			if (spins & 7) {
+				pfx_table_validate(rd->pt, QP[q].asn, &ip, (uint8_t)QP[q].qlen, &st);
+			} else {
+				/* with the deciding records, into the reader's own reused array: the lookup allocates (and is
+				 * delayed there) while a reload may be waiting to swap the tables */
+				pfx_table_validate_r(rd->pt, &reason, &reason_n, QP[q].asn, &ip, (uint8_t)QP[q].qlen, &st);
+				rd->o.with_reasons++;
+			}
 			e2 = __atomic_load_n(&EPOCH, __ATOMIC_SEQ_CST);
 			if (e1 != e2 || e1 < 1) {
 				rd->o.discarded++;
@@ -930,11 +946,49 @@ void conc_on_reset_query_answered(struct sim *s)
 	__atomic_store_n(&EPOCH, e, __ATOMIC_SEQ_CST);
 }
 
+/* Records of the other source that arrive late: after the reloading cache's first synchronisation, so that in the
+ * tables' internal order they stand behind records of the reloading cache.  They lie outside everything the readers
+ * ask for; the driver checks at the end that every reload carried them over. */
+#define NLATE 8
+static bool LATE_ADDED;
+
+static void late_key(int i, struct spki_record *kr)
+{
+	memset(kr, 0, sizeof(*kr));
+	kr->asn = 0xFFFFFF00u + (uint32_t)i;
+	memset(kr->ski, 0x77, SKI_SIZE);
+	memset(kr->spki, 0x50 + i, SPKI_SIZE);
+	kr->socket = &SRC[0];
+}
+
+static void late_prefix(int i, struct pfx_record *pr)
+{
+	memset(pr, 0, sizeof(*pr));
+	pr->asn = 4242424242u;
+	pr->prefix.ver = LRTR_IPV4;
+	pr->prefix.u.addr4.addr = 0xCB007100u + (uint32_t)i; /* 203.0.113.i */
+	pr->min_len = pr->max_len = 32;
+	pr->socket = &SRC[0];
+}
+
 static void conc_state_cb(const struct rtr_socket *sock, const enum rtr_socket_state state, void *cfgp, void *grpp)
 {
 	sim_state_cb(sock, state, cfgp, grpp);
-	if (state == RTR_ESTABLISHED)
+	if (state == RTR_ESTABLISHED) {
+		if (!LATE_ADDED) {
+			LATE_ADDED = true;
+			for (int i = 0; i < NLATE; i++) {
+				struct spki_record kr;
+				struct pfx_record pr;
+
+				late_key(i, &kr);
+				late_prefix(i, &pr);
+				spki_table_add_entry(sock->spki_table, &kr);
+				pfx_table_add(sock->pfx_table, &pr);
+			}
+		}
 		__atomic_store_n(&RELOADING, 0, __ATOMIC_SEQ_CST);
+	}
 }
 
 static uint64_t UPDATE_CALLBACKS;
@@ -1065,6 +1119,9 @@ static void run_reload_case(struct rng *r, long c, int nepoch, int nrec, int nre
 		}
 	rtr_init(&sock, &s->tr, &pt, &kt, cfg.refresh, cfg.expire, cfg.retry, cfg.iv_mode, conc_state_cb, s, NULL);
 	EPOCH = -1; /* becomes 0 when the first Reset Query is answered */
+	LATE_ADDED = false;
+	ALLOC_FAIL_ENABLED = false;
+	ALLOC_DELAY_MASK = 255;
 	RELOADING = 0;
 	STOP_READERS = 0;
 	PRESET_NEXT = 1;
@@ -1117,6 +1174,7 @@ static void run_reload_case(struct rng *r, long c, int nepoch, int nrec, int nre
 		tot.flips += rd[i].o.flips;
 		tot.saw_new += rd[i].o.saw_new;
 		tot.discarded += rd[i].o.discarded;
+		tot.with_reasons += rd[i].o.with_reasons;
 	}
 	cnt_add("c06/observations", tot.n);
 	cnt_add("c06/observations_while_reload_in_flight", tot.inflight);
@@ -1124,7 +1182,29 @@ static void run_reload_case(struct rng *r, long c, int nepoch, int nrec, int nre
 	cnt_add("c06/flip_query_observations", tot.flips);
 	cnt_add("c06/new_set_observations", tot.saw_new);
 	cnt_add("c06/discarded_epoch_changed_during_call", tot.discarded);
+	cnt_add("c06/validations_with_reason_array", tot.with_reasons);
 	cnt_add("c06/reloads_completed", (uint64_t)(EPOCH > 0 ? EPOCH : 0));
+	if (LATE_ADDED) {
+		/* the other source's late records must have come through every reload */
+		struct spki_record kr, *res = NULL;
+		unsigned int n = 0, pfx_ok = 0;
+
+		late_key(0, &kr);
+		spki_table_search_by_ski(&kt, kr.ski, &res, &n);
+		lrtr_free(res);
+		for (int i = 0; i < NLATE; i++) {
+			struct pfx_record pr;
+			enum pfxv_state st = BGP_PFXV_STATE_NOT_FOUND;
+
+			late_prefix(i, &pr);
+			pfx_table_validate(&pt, pr.asn, &pr.prefix, 32, &st);
+			pfx_ok += st == BGP_PFXV_STATE_VALID;
+		}
+		CNT("c06/late_records_of_other_source_checked");
+		if (n != NLATE || pfx_ok != NLATE)
+			viol("C06", "C06:other-source-records-lost-by-reload", "after %d reloads %u of %d router keys and %u of %d prefixes the other source added after the first synchronisation are left",
+			     EPOCH, n, NLATE, pfx_ok, NLATE);
+	}
 	if (EPOCH < nepoch || sock.state != RTR_ESTABLISHED)
 		CNT("c06/runs_ended_by_horizon_before_all_reloads_completed");
 	if (tot.inflight)
